@@ -15,6 +15,7 @@ import itertools
 import json
 import os
 import random
+import time
 
 from harness import tlc
 from harness.common import MachineryFailure, run_workers
@@ -678,6 +679,7 @@ def slim(case):
 
 
 def run_trace(ctx, cases, flagsets, label, workers=4):
+    workers = min(workers, int(os.environ.get("VERIF_DEV_NPROC", "64")))
     path = os.path.join(ctx.scratch, "life_%s.json" % label)
     with open(path, "w") as f:
         json.dump({"flagsets": flagsets, "cases": [slim(c) for c in cases]}, f)
@@ -703,8 +705,9 @@ def applicable_flags(case):
     return [f for f in ALL_FLAGS if not (f in DM_ONLY and case["sub"] != "dm")]
 
 
-def validate(ctx, cases, label, report=True):
-    """Returns (accepted ids, rejections: list of {case, flags(explaining) | None, rej})."""
+def validate(ctx, cases, label, report=True, beside=None):
+    """Returns (accepted ids, rejections: list of {case, flags(explaining) | None, rej}).
+    beside(accepted_ids): optional callable run concurrently with the classification."""
     for c in cases:
         if c.get("error"):
             raise MachineryFailure("harness: %s (%s)" % (c["error"], c["id"]))
@@ -723,17 +726,42 @@ def validate(ctx, cases, label, report=True):
             todo.append((c, v[1]))
     ctx.cov["traces_validated_against_impl"] += len(cases)
     rejections = []
+    side = None
+    if beside:
+        import threading
+        box = {}
+
+        def runner():
+            try:
+                beside(accepted)
+            except BaseException as e:      # re-raised in the main thread
+                box["exc"] = e
+        side = (threading.Thread(target=runner), box)
+        side[0].start()
     if todo:
         # classify: smallest set of named deviations under which the whole recording is accepted
         # (the dm-only deviations have no effect on legacy recordings: one run for all)
-        fsets = [list(x) for n in range(1, 4) for x in itertools.combinations(ALL_FLAGS, n)]
-        if True:
-            items = todo
-            v = run_trace(ctx, [c for c, _ in items], fsets, label + "_classify")
+        items = todo
+        for sizes in ((1, 2), (3, 4), (5, 6)):
+            if not items:
+                break
+            fsets = [list(x) for n in sizes for x in itertools.combinations(ALL_FLAGS, n)]
+            v = run_trace(ctx, [c for c, _ in items], fsets, label + "_classify%d" % sizes[0])
+            rest = []
             for c, rj in items:
                 ok = [fsets[i] for i in range(len(fsets)) if v.get((c["id"], i + 1), ("x",))[0] == "accept"]
                 ok.sort(key=len)
-                rejections.append({"case": c, "flags": ok[0] if ok else None, "rej": rj})
+                if ok:
+                    rejections.append({"case": c, "flags": ok[0], "rej": rj})
+                else:
+                    rest.append((c, rj))
+            items = rest
+        for c, rj in items:
+            rejections.append({"case": c, "flags": None, "rej": rj})
+    if side:
+        side[0].join()
+        if "exc" in side[1]:
+            raise side[1]["exc"]
     if report:
         for rj in rejections:
             report_rejection(ctx, rj)
@@ -756,7 +784,7 @@ def report_rejection(ctx, rj):
 
 def execute(ctx, cases, nproc=14):
     """Run the cases on the real code in worker processes (hash seeds 0..3)."""
-    nproc = max(1, min(nproc, len(cases)))
+    nproc = max(1, min(nproc, len(cases), int(os.environ.get("VERIF_DEV_NPROC", "64"))))   # cap while developing
     chunks = [{"cases": cases[i::nproc]} for i in range(nproc)]
     res = run_workers("harness.lifecycle", "work_cases", chunks, ctx.scratch, nproc=nproc)
     out = {}
@@ -846,7 +874,11 @@ def witnesses():
         for sub in subs:
             cases.append({"id": "w/%s/%s" % (name, sub), "sub": sub, "started": True, "ctxs": ["c1", "c2", "c3"],
                           "steps": [{"act": a} for a in acts], "witness": True})
-    return cases
+    # consecutive positions go to consecutive workers (hash seeds 0..3 in turn): keep the four copies of the
+    # hash-seed dependent witness adjacent per subsystem so that each subsystem meets every seed
+    nd = [c for c in cases if "/notifydel" in c["id"]]
+    rest = [c for c in cases if "/notifydel" not in c["id"]]
+    return [c for c in nd if c["sub"] == "dm"] + [c for c in nd if c["sub"] == "legacy"] + rest
 
 
 # ------------------------------------------------------------------------------------------------
@@ -971,17 +1003,21 @@ def main_common(ctx, prop, mc_jobs, sim_consts, pool, sizes):
         mc_jobs = []
     thunks = [(lambda j=j: run_mc(ctx, *j)) for j in mc_jobs]
     nsplit = sizes.get("simsplit", 3)        # several simulators side by side (different seeds)
-    per = (sizes["sim"] + nsplit - 1) // nsplit
+    if os.environ.get("VERIF_SKIP_SIM"):      # mutant / fix trials: witnesses and random sequences only
+        nsplit = 0
+    per = (sizes["sim"] + nsplit - 1) // nsplit if nsplit else 0
     for k in range(nsplit):
         thunks.append(lambda k=k: sim("u%d" % k, sim_u, per, ctx.seed * 100 + 11 + k))
         thunks.append(lambda k=k: sim("m%d" % k, masked_consts, per, ctx.seed * 100 + 51 + k, constraint="MaskOneDeclaration"))
-    outs = parallel(thunks, max_workers=len(thunks))
+    outs = parallel(thunks, max_workers=min(8, int(os.environ.get("VERIF_DEV_NPROC", "64")))) if thunks else []
     mc_report(ctx, outs[:len(mc_jobs)])
     sims = outs[len(mc_jobs):]
     beh_u = [b for o in sims[0::2] for b in o]
     beh_m = [b for o in sims[1::2] for b in o]
-    if len(beh_u) < sizes["sim"] // 2 or len(beh_m) < sizes["sim"] // 2:
+    if nsplit and (len(beh_u) < sizes["sim"] // 2 or len(beh_m) < sizes["sim"] // 2):
         raise MachineryFailure("simulation produced too few behaviours (%d, %d)" % (len(beh_u), len(beh_m)))
+    if os.environ.get("VERIF_RND"):           # smaller volume for mutant / fix trials
+        sizes = dict(sizes, rnd=int(os.environ["VERIF_RND"]))
     # (T) random longer sequences
     rnd_u = [gen_random_case(ctx.seed * 100000 + i, sizes["steps"], allctx, set()) for i in range(sizes["rnd"])]
     rnd_m = [gen_random_case(ctx.seed * 100000 + 50000 + i, sizes["steps"], allctx, set(ALL_FLAGS)) for i in range(sizes["rnd"])]
@@ -992,11 +1028,16 @@ def main_common(ctx, prop, mc_jobs, sim_consts, pool, sizes):
     for c in masked:
         c["masked"] = True
     cases += masked
+    t_gen = time.time()
     done = execute(ctx, cases)
-    accepted, rejections = validate(ctx, done, "main")
+    t_exec = time.time()
     byid = {c["id"]: c for c in done}
+    accepted, rejections = validate(
+        ctx, done, "main",
+        beside=lambda acc: selftest(ctx, [byid[i] for i in acc if len(byid[i]["steps"]) >= 4][:12]))
     acc_cases = [byid[i] for i in accepted]
-    selftest(ctx, [c for c in acc_cases if len(c["steps"]) >= 4][:12])
+    ctx.cov["phase_wall_s"] = {"model_checking_and_simulation": round(t_gen - ctx.t0, 1), "execution_on_real_code": round(t_exec - t_gen, 1),
+                               "trace_validation": round(time.time() - t_exec, 1)}
     # coverage
     um = [c for c in done if not c.get("masked")]
     mm = [c for c in done if c.get("masked")]
